@@ -1,6 +1,381 @@
-PROPS = {}
-MANIFEST_TEXT = {}
+"""Checks of the DAG properties (C13-C16) through spec/Dag*.tla."""
+import json, os, shutil, subprocess, time
+from concurrent.futures import ThreadPoolExecutor
+from runner import (VERIF, NCPU, GOENV, Broken, log, run, build_harness, tlc, tlc_stats, tlc_messages, tlc_failed,
+                    load_findings, write_evidence, next_replay_path)
+import findings
+
+INVS = ("TypeOK StartAfterDepsOk AttemptsBounded HBDepsBeforeEntry NoRunAfterNil NoDependentOfFailed NoDependentOfSkipParents "
+        "ReportComplete SkipParentsSilent NoLaunchAfterCancelObserved ExecBound SerialOne SerialHB TaskMutex BlocksWhole "
+        "CycleRejected NoStartOnCycle WorkConservingLaunch")
+
+# which property a failing invariant / a rejected event belongs to
+INV_PROP = {
+    "StartAfterDepsOk": "C13", "AttemptsBounded": "C13", "HBDepsBeforeEntry": "C13", "NoRunAfterNil": "C13",
+    "NoDependentOfFailed": "C14", "NoDependentOfSkipParents": "C14", "ReportComplete": "C14", "SkipParentsSilent": "C14",
+    "NoLaunchAfterCancelObserved": "C14",
+    "ExecBound": "C15", "SerialOne": "C15", "SerialHB": "C15", "TaskMutex": "C15", "BlocksWhole": "C15", "TypeOK": "C15",
+    "CycleRejected": "C16", "NoStartOnCycle": "C16", "WorkConservingLaunch": "C16",
+}
+EV_PROP = {
+    "enter": "C13",
+    "recv": "C14", "cancelobserved": "C14", "returned": "C14", "sending": "C14",
+    "acquired": "C15", "locked": "C15", "write": "C15", "flush": "C15", "releasing": "C15", "unlocking": "C15", "frag": "C15",
+    "idle": "C16", "sort": "C16", "run": "C16", "alldone": "C16", "hang": "C16", "panic": "C16",
+    "add": "C16", "dep": "C16", "retries": "C16", "deferr": "C16", "config": "C16",
+}
+DIAG_PROP = {
+    "dependency-not-finished": "C13", "launched-twice": "C13",
+    "run-after-failure-or-cancel": "C14", "run-of-skipped": "C14", "wrong-kind": "C14",
+    "serial-overlap": "C15",
+    "not-running": "C16", "unknown-vertex": "C16",
+}
+
+MC_BASE = """SPECIFICATION %(spec)s
+CONSTANTS
+  Tasks = %(tasks)s
+  MaxRetries = %(maxretries)d
+  Mode = "%(mode)s"
+  Limits = %(limits)s
+  Serials = %(serials)s
+  Buffereds = %(buffereds)s
+  MaxHist = %(maxhist)d
+  WithCancel = %(cancel)s
+  WithEnvLock = %(envlock)s
+  Outcomes = %(outcomes)s
+  MaxFrags = %(maxfrags)d
+INVARIANTS %(invs)s
+%(props)s
+CHECK_DEADLOCK FALSE
+"""
+
+
+def mc(name, **kw):
+    d = dict(spec="Spec", tasks="{1, 2, 3}", maxretries=0, mode="run", limits="{1, 2}", serials="{FALSE}", buffereds="{FALSE}",
+             maxhist=0, cancel="FALSE", envlock="FALSE", outcomes='{"nil", "err", "skipparents"}', maxfrags=0, invs=INVS, props="")
+    d.update(kw)
+    return (name, MC_BASE % d)
+
+
+ALL3 = '{"nil", "err", "skipparents"}'
+LIVE = "PROPERTIES Termination ReadyStarts InFlightFinish"
+MC_CONFIGS = {
+    "C13": {
+        "quick": [mc("retries", maxretries=1, limits="{2}"), mc("serial", serials="{TRUE}", limits="{1, 3}")],
+        "thorough": [mc("retries3", maxretries=1, limits="{1, 2}", cancel="TRUE"), mc("retries2x2", tasks="{1, 2}", maxretries=2, limits="{1, 2}", serials="{FALSE, TRUE}", cancel="TRUE"),
+                     mc("four", tasks="{1, 2, 3, 4}", limits="{2}", outcomes='{"nil", "err"}')],
+    },
+    "C14": {
+        "quick": [mc("cancel", cancel="TRUE", limits="{1, 2}")],
+        "thorough": [mc("cancel3", cancel="TRUE", limits="{1, 2, 3}", serials="{FALSE, TRUE}"), mc("cancel-retries", cancel="TRUE", maxretries=1, limits="{1, 2}"),
+                     mc("four", tasks="{1, 2, 3, 4}", limits="{2}", cancel="FALSE")],
+    },
+    "C15": {
+        "quick": [mc("limits", limits="{1, 2, 3}", serials="{FALSE, TRUE}", outcomes='{"nil", "err"}'),
+                  mc("buffer", tasks="{1, 2}", maxretries=1, buffereds="{TRUE}", maxfrags=2, limits="{1, 2}"),
+                  mc("shared", tasks="{1, 2}", envlock="TRUE", limits="{1, 2}", serials="{FALSE, TRUE}")],
+        "thorough": [mc("limits", limits="{1, 2, 3}", serials="{FALSE, TRUE}", cancel="TRUE"),
+                     mc("buffer3", tasks="{1, 2, 3}", maxretries=0, buffereds="{TRUE}", maxfrags=2, limits="{1, 2}", outcomes='{"nil", "err"}'),
+                     mc("buffer", tasks="{1, 2}", maxretries=1, buffereds="{TRUE}", maxfrags=2, limits="{1, 2}", cancel="TRUE"),
+                     mc("shared3", tasks="{1, 2, 3}", envlock="TRUE", limits="{1, 2}", outcomes='{"nil", "err"}')],
+    },
+    "C16": {
+        "quick": [mc("histories", mode="build", maxhist=4, limits="{2}", outcomes='{"nil"}'),
+                  mc("liveness", spec="LiveSpec", tasks="{1, 2}", maxretries=1, limits="{1, 2}", serials="{FALSE, TRUE}", cancel="TRUE", props=LIVE)],
+        "thorough": [mc("histories5", mode="build", maxhist=5, limits="{2}", outcomes='{"nil"}'),
+                     mc("histories4-outcomes", mode="build", maxhist=4, limits="{1, 2}", outcomes='{"nil", "err"}', maxretries=1),
+                     mc("liveness3", spec="LiveSpec", limits="{1, 2}", serials="{FALSE, TRUE}", cancel="TRUE", props=LIVE)],
+    },
+}
+
+# driver emphasis per property: (sub-command, extra args, runs quick, runs thorough)
+DRIVERS = {
+    "C13": [("rand", ["-maxv", "4", "-weird", "0.05"], 480, 12000), ("rand", ["-maxv", "6", "-weird", "0"], 160, 4000)],
+    "C14": [("rand", ["-maxv", "4", "-weird", "0.05"], 480, 12000), ("rand", ["-maxv", "5", "-weird", "0"], 160, 4000)],
+    "C15": [("rand", ["-maxv", "4", "-weird", "0.05"], 320, 8000), ("two", ["-maxv", "3"], 160, 4000)],
+    "C16": [("rand", ["-maxv", "4", "-weird", "0.6"], 480, 12000), ("rand", ["-maxv", "3", "-weird", "0.9"], 160, 4000)],
+}
+
+PROPS = {"C13": {}, "C14": {}, "C15": {}, "C16": {}}
+
+TRACE_CFG = """SPECIFICATION TraceSpec
+CONSTANTS
+  Tasks = {"a","b","c","d","e","f","g","h"}
+  MaxRetries = 3
+  TraceFile = "%(trace)s"
+INVARIANTS %(invs)s
+POSTCONDITION AllConsumed
+CHECK_DEADLOCK FALSE
+"""
+
+_NOTE = ("Trusted: TLC; the hook placement rule (events that enable others are logged before the real operation, events enabled by others after it), "
+         "so the single mutex-ordered event log is consistent with causality; the harness controller. Exhaustive for the stated graph sizes on the "
+         "specification; the real code is bound by validating every recorded controlled schedule, which samples (seeded) rather than enumerates interleavings.")
+
+
+def _mt(ref, text):
+    return dict(engine="dag-tla", level="model_checking", ref=ref, note=_NOTE, text=text,
+                technique="TLA+ specification of scheduler and workers model-checked by TLC (safety, liveness) + TLC trace validation of controlled schedules of the real dag.Graph.Run")
+
+
+MANIFEST_TEXT = {
+    "C13": _mt("DESIGN.md 6 C13", "StartAfterDepsOk, AttemptsBounded, NoRunAfterNil and the happens-before ghost HBDepsBeforeEntry are TLC invariants of Dag.tla over every DAG on 3 (thorough: 4) vertices x retries x limits x outcomes x all interleavings; the real Run is single-stepped through build-tag hooks by a seeded controller (each hooked goroutine parks until released), and every recorded event sequence must be a behaviour of the spec with all invariants evaluated at every step; memory visibility itself is checked by hook-free runs under the race detector with plain reads of what dependencies wrote."),
+    "C14": _mt("DESIGN.md 6 C14", "NoDependentOfFailed, NoDependentOfSkipParents, ReportComplete (exact content of the returned *Errors), SkipParentsSilent and the launch kinds after failure / observed cancellation are checked by TLC with cancellation at every point; recorded schedules of the real code with random outcomes and cancellation points are validated, including the entries of the returned error."),
+    "C15": _mt("DESIGN.md 6 C15", "ExecBound, SerialOne, SerialHB, TaskMutex (other graph modelled as an environment that locks the shared Task) and BlocksWhole are TLC invariants; real runs with low limits, serial mode, output buffering with multi-fragment tasks (recording writer) and two graphs sharing Task objects run concurrently are validated event by event (acquired only below the limit, every Write call equal to exactly one attempt's output)."),
+    "C16": _mt("DESIGN.md 6 C16", "Termination, ReadyStarts and InFlightFinish are checked by TLC under fairness; construction histories (AddTask / TaskDependsOn / TaskRetries in any order and repetition, duplicate and self edges, lookups of unknown tasks) up to 4 (thorough 5) calls are explored before Run; in recorded real runs an `idle` tick is accepted only when the spec has nothing eligible and is not done (work conservation), cycles / definition errors must be answered before any launch, DepthFirstSort output must be topological, and a run whose scheduler idles 3000 times with nothing else in flight is a stall."),
+}
+
+
+def run_mc(work, prop, tier):
+    states = transitions = 0
+    for name, cfg in MC_CONFIGS[prop][tier]:
+        t1 = time.time()
+        rc, out, d = tlc(work, "mc-" + name, "DagMC", cfg, workers=NCPU, heap="12g", timeout=10800)
+        gen, dist = tlc_stats(out)
+        if tlc_failed(rc, out):
+            raise Broken("the DAG specification fails its own properties in configuration %s (rc=%d):\n%s" % (name, rc, "\n".join(out.splitlines()[-60:])))
+        log("spec: DagMC %s: %d states, %d transitions, all properties hold (%.0fs)" % (name, dist, gen, time.time() - t1))
+        states += dist
+        transitions += gen
+    return states, transitions
+
+
+def split_runs(path):
+    """-> list of (start_line_index, end_line_index_exclusive, run_number) for each run of a trace file."""
+    runs = []
+    with open(path) as f:
+        lines = f.readlines()
+    for i, l in enumerate(lines):
+        if l.startswith('{"ev":"config"'):
+            if runs:
+                runs[-1][1] = i
+            runs.append([i, len(lines), json.loads(l)["run"]])
+    return lines, runs
+
+
+def validate(work, name, trace):
+    """Validate a multi-run trace file; a rejected run is reported and validation continues after it.
+    -> (runs_ok, [rejection dicts])"""
+    lines, runs = split_runs(trace)
+    rej = []
+    ok = 0
+    start = 0   # index into runs
+    it = 0
+    while start < len(runs) and it < 8:
+        it += 1
+        part = os.path.join(work, "tr", "%s.part%d.ndjson" % (name, it))
+        with open(part, "w") as f:
+            f.writelines(lines[runs[start][0]:])
+        rc, out, d = tlc(work, "tv-%s-%d" % (name, it), "DagTrace", TRACE_CFG % dict(trace=part, invs=INVS), workers=1, heap="1500m", timeout=7200)
+        msgs = tlc_messages(out)
+        if not tlc_failed(rc, out):
+            ok += len(runs) - start
+            break
+        rejects = [m for m in msgs if m["k"] == "REJECT"]
+        diags = [m for m in msgs if m["k"] == "DIAG"]
+        inv = None
+        for line in out.splitlines():
+            if line.startswith("Error: Invariant ") and " is violated" in line:
+                inv = line.split()[2]
+        if not rejects and not inv:
+            raise Broken("DAG trace validation broke for %s:\n%s" % (name, "\n".join(out.splitlines()[-30:])))
+        if rejects:
+            ln = rejects[0]["line"]          # 1-based line within part
+            ev = rejects[0]["ev"]
+        else:
+            # an invariant failed: TLC printed the counterexample; its length is the line
+            ln = max([int(x.split()[1].rstrip(":")) for x in out.splitlines() if x.startswith("State ") and x.split()[1].rstrip(":").isdigit()] or [1]) - 1
+            ev = json.loads(lines[runs[start][0] + max(ln - 1, 0)]) if ln >= 1 else {"ev": "?"}
+        absline = runs[start][0] + ln - 1
+        ri = max(i for i in range(len(runs)) if runs[i][0] <= absline)
+        ok += ri - start
+        why = None
+        for dg in diags:
+            if dg["line"] == ln:
+                why = dg["why"]
+        rej.append(dict(run=runs[ri][2], event=ev, invariant=inv, why=why, lines=lines[runs[ri][0]:runs[ri][1]], trace=trace))
+        start = ri + 1
+    return ok, rej
+
+
+def attribute(r):
+    if r["invariant"]:
+        return INV_PROP.get(r["invariant"], "C16")
+    ev = r["event"].get("ev")
+    if ev == "launch":
+        return DIAG_PROP.get(r["why"] or "", "C14")
+    return EV_PROP.get(ev, "C16")
 
 
 def check(prop, tier, seed, work, replay, t0):
-    raise NotImplementedError
+    dagdrive = build_harness(work, "dagdrive")
+    os.makedirs(os.path.join(work, "tr"), exist_ok=True)
+    if replay:
+        return do_replay(prop, dagdrive, work, replay)
+    states, transitions = run_mc(work, prop, tier)
+
+    jobs = []
+    for di, (sub, extra, nq, nt) in enumerate(DRIVERS[prop]):
+        n = nq if tier == "quick" else nt
+        per = max(1, n // NCPU)
+        for k in range(NCPU):
+            jobs.append((sub, extra, per, seed * 100000 + di * 1000 + k, "%s%d-%d" % (sub, di, k)))
+
+    def one(job):
+        sub, extra, n, sd, name = job
+        trace = os.path.join(work, "tr", name + ".ndjson")
+        plans = os.path.join(work, "tr", name + ".plans")
+        args = [dagdrive, sub, "-n", str(n), "-seed", str(sd), "-out", trace] + extra
+        if sub == "rand":
+            args += ["-plans", plans]
+        p = subprocess.run(args, stdout=subprocess.PIPE, stderr=subprocess.STDOUT, text=True, env=GOENV, timeout=7200)
+        if p.returncode != 0:
+            raise Broken("dagdrive failed (%d): %s\n%s" % (p.returncode, " ".join(args), p.stdout[-2000:]))
+        info = {"cases": 0, "nontrivial": 0, "hangs": 0, "overlap": 0, "stats": {}}
+        for line in p.stdout.splitlines():
+            if line.startswith("STATS "):
+                info["stats"] = json.loads(line[6:])
+                continue
+            for kv in line.split():
+                if "=" in kv:
+                    k, v = kv.split("=", 1)
+                    if k in info and v.isdigit():
+                        info[k] += int(v)
+        ok, rej = validate(work, name, trace)
+        return dict(name=name, trace=trace, plans=plans if sub == "rand" else None, info=info, ok=ok, rej=rej, sub=sub)
+
+    t1 = time.time()
+    with ThreadPoolExecutor(max_workers=NCPU) as ex:
+        results = list(ex.map(one, jobs))
+    log("conformance: %d trace files of controlled schedules of the real Graph.Run validated by TLC (%.0fs)" % (len(results), time.time() - t1))
+
+    race_note = None
+    if prop in ("C13", "C15"):
+        race_note = race_run(work, prop, tier, seed)
+
+    cases = sum(r["info"]["cases"] for r in results)
+    nontrivial = sum(r["info"]["nontrivial"] for r in results)
+    classes = {}
+    for r in results:
+        for k, v in r["info"]["stats"].items():
+            classes[k] = classes.get(k, 0) + v
+    log("outcome classes of the executed runs: %s" % json.dumps(classes, sort_keys=True))
+    known = load_findings()
+    nviol, reported, notes, knownhits = 0, 0, 0, {}
+    viols = []
+    for r in results:
+        if r["info"]["overlap"] and prop == "C15":
+            viols.append(dict(kind="overlap", res=r, rej=None))
+        for rj in r["rej"]:
+            if attribute(rj) == prop:
+                viols.append(dict(kind="reject", res=r, rej=rj))
+            else:
+                notes += 1
+    if race_note and race_note.get("violation"):
+        viols.append(dict(kind="race", res=None, rej=None, detail=race_note["violation"]))
+    rc = 0
+    for v in viols:
+        kf = findings.match_dag(known, prop, v)
+        if kf is not None:
+            knownhits[kf["id"]] = knownhits.get(kf["id"], 0) + 1
+            continue
+        nviol += 1
+        rc = 1
+        if reported < 5:
+            path = next_replay_path(prop)
+            rec = {"property": prop, "kind": v["kind"]}
+            if v["kind"] == "reject":
+                rj = v["rej"]
+                rec.update(rejected_event=rj["event"], invariant=rj["invariant"], why=rj["why"], events=[json.loads(x) for x in rj["lines"]])
+                if v["res"]["plans"] and os.path.exists(v["res"]["plans"]):
+                    with open(v["res"]["plans"]) as f:
+                        for line in f:
+                            p = json.loads(line)
+                            if p["Run"] == rj["run"]:
+                                rec["plan"] = p
+            elif v["kind"] == "race":
+                rec["detail"] = v["detail"]
+            with open(path, "w") as f:
+                json.dump(rec, f, indent=1)
+            log("VIOLATION property=%s replay=%s" % (prop, path))
+            if v["kind"] == "reject":
+                rj = v["rej"]
+                hist = [(e["ev"], e["id"], e["d"]) for e in rec["events"] if e["ev"] in ("add", "dep", "retries", "deferr")]
+                log("  graph construction: %s" % json.dumps(hist))
+                log("  the specification does not allow event %s (invariant=%s, why=%s) at that point of the recorded run" % (
+                    json.dumps({k: rj["event"].get(k) for k in ("ev", "id", "k", "n")}), rj["invariant"], rj["why"]))
+            elif v["kind"] == "race":
+                log("  race detector: %s" % v["detail"][:300])
+            else:
+                log("  a Task shared by two graphs was inside its function in both at once")
+            reported += 1
+    for fid, n in sorted(knownhits.items()):
+        kf = [k for k in known if k["id"] == fid][0]
+        log("KNOWN-FINDING: property=%s %s (%s; %d runs)" % (prop, kf["what"], fid, n))
+    if notes:
+        log("note: %d rejected runs belong to other DAG properties (reported by their own checks)" % notes)
+    if cases == 0:
+        raise Broken("no run was executed")
+    samples = []
+    for r in results[:2]:
+        lines, runs = split_runs(r["trace"])
+        if runs:
+            evs = [json.loads(x) for x in lines[runs[0][0]:runs[0][1]]]
+            samples.append([" ".join(x for x in (e["ev"], e["id"], e["k"], e["d"]) if x) for e in evs][:60])
+    coverage = {
+        "states": states, "transitions": transitions, "traces_validated_against_impl": cases,
+        "evaluations": cases, "distinct_nontrivial": nontrivial,
+        "rule": "seeded random graphs (as construction histories), outcomes, limits, serial/buffer modes, cancellation points and schedules; non-trivial = at least two task-function entries; distinct by (history, outcomes, limit, serial)",
+        "samples": samples or [["no sample"]],
+        "exhaustive": False,
+        "model_configurations": [n for n, _ in MC_CONFIGS[prop][tier]],
+        "outcome_classes": classes, "rejections_of_other_properties": notes, "known_finding_cases": sum(knownhits.values()),
+        "race_detector": race_note,
+    }
+    write_evidence(prop, tier, seed, "model_checking", coverage,
+                   ["schedules of the real code are sampled by a seeded controller, not enumerated",
+                    "hook placement makes the logged order consistent with causality",
+                    "memory visibility is decided by the Go race detector on hook-free runs, not by TLC"],
+                   time.time() - t0, nviol)
+    log("%s: %d runs validated, %d spec states, %d violations, %d known-finding runs (%.0fs)" % (prop, cases, states, nviol, sum(knownhits.values()), time.time() - t0))
+    return rc
+
+
+def race_run(work, prop, tier, seed):
+    """Hook-free runs under the race detector (memory visibility clauses of C13 / C15)."""
+    try:
+        binr = build_harness(work, "dagdrive", race=True)
+    except Broken as e:
+        return {"skipped": "race build unavailable: %s" % str(e)[:200]}
+    n = 150 if tier == "quick" else 3000
+    p = subprocess.run([binr, "race", "-n", str(n), "-seed", str(seed)], stdout=subprocess.PIPE, stderr=subprocess.STDOUT, text=True,
+                       env=dict(GOENV, GORACE="halt_on_error=1 exitcode=66"), timeout=7200)
+    note = {"runs": n, "exit": p.returncode}
+    if p.returncode == 66 or "DATA RACE" in p.stdout:
+        note["violation"] = p.stdout[:3000]
+    elif p.returncode == 3:
+        note["hang"] = True
+    elif p.returncode != 0:
+        raise Broken("race run failed (%d):\n%s" % (p.returncode, p.stdout[-2000:]))
+    log("race detector: %d hook-free runs, exit %d" % (n, p.returncode))
+    return note
+
+
+def do_replay(prop, dagdrive, work, path):
+    rec = json.load(open(path))
+    if "plan" not in rec:
+        log("replay file carries no plan (kind=%s); nothing to re-execute" % rec.get("kind"))
+        return 2
+    src = os.path.join(work, "replay-in.json")
+    shutil.copy(path, src)
+    trace = os.path.join(work, "tr", "replay.ndjson")
+    run([dagdrive, "rerun", "-in", src, "-out", trace, "-times", "30"], env=GOENV)
+    ok, rej = validate(work, "replay", trace)
+    mine = [r for r in rej if attribute(r) == prop]
+    if mine:
+        rj = mine[0]
+        log("VIOLATION property=%s replay=%s" % (prop, path))
+        log("  rejected event %s invariant=%s why=%s" % (json.dumps({k: rj["event"].get(k) for k in ("ev", "id", "k", "n")}), rj["invariant"], rj["why"]))
+        return 1
+    log("replay: %d re-executions of the plan (30 schedule seeds) are all behaviours of the specification" % ok)
+    return 0
